@@ -705,6 +705,19 @@ def check_C12(tier, seed, rest):
     ex = b["extra"]
     if ex.get("modes") and not ex["modes"]["ok"]:
         v.append({"key": "modes-spec", "what": "Modes.tla: SameInBothModes violated at specification level", "tlc": ex.get("modes_out")})
+    # per attempt and for inputs of every length: the byte-mode twin of a str definition against the SAME reference
+    # automata (Attempt.tla T-munch).  The enumerated alphabets above rarely contain the other-case form of a character,
+    # so what ignore(case) and Unicode classes mean in the byte-mode twin is decided here.
+    sens = [d for d in base if d["id"].startswith(("icase", "uni_", "greek", "cyr", "neg_cls", "emoji", "mixed_len", "sub_uni", "sub_word"))]
+    sens += [d for d in literal_corpus(tier, seed) if d["utf8"] and d["id"].startswith(("fold", "icrx", "icsk", "mixb", "lit"))][: (40 if tier == "quick" else 400)]
+    tw_defs = []
+    for d in sens:
+        tw = copy.deepcopy(d)
+        tw["id"] = d["id"] + "__bytes"
+        tw["utf8"] = False
+        tw_defs.append(tw)
+    ta = engine_a(tier, seed, "modesA", tw_defs)
+    v += [as_violation(f) for f in ta["findings"] if f["kind"] in ("munch", "err_span", "eoi", "crash")]
     # acceptance: non-UTF-8 patterns only with utf8 = false
     from pipeline import capture
     defs_path, metas, _ = capture(base_corpus(tier, seed), "base")
@@ -723,6 +736,9 @@ def check_C12(tier, seed, rest):
                                "spec_properties": "Modes.SameInBothModes (same Ok items, same error bytes) over all enumerated valid UTF-8 inputs; both variants replayed against LexSpec; real str output compared with real byte-mode output"})
     if ex.get("modes"):
         cov["states"] += ex["modes"]["distinct"]
+    cov["states"] += ta["tlc"]["distinct"]
+    cov["transitions"] += ta["tlc"]["states"]
+    cov["byte_mode_twins_through_Attempt"] = {"definitions": ta["defs"], "explored": ta["explored"], "replay_requests": ta["requests"]}
     finish("C12", tier, seed, "model_checking", cov, v, t0, ASSUME_B)
 
 
@@ -778,7 +794,15 @@ def check_C15(tier, seed, rest):
     from api import api_run
     r = api_run("api", tier, seed, API_CFGS)
     v = [api_violation(f) for f in r["findings"] if f["kind"] == "bump"]
+    # the guard of bump is Source::is_boundary: SourceRead.tla's char-boundary cases (characters of 1 to 4 bytes, with
+    # 80 and BF as continuation bytes, indices up to len + 2) replayed on str, String and [u8]
+    from pipeline import build_subjects, capture
+    _dp, _metas, _ = capture(lex_corpus(tier, seed), "base")
+    _bins = build_subjects(_metas, ["tc", "tc_safe"], "base")
+    rv, rcov = source_read_check(_bins)
+    v += [x for x in rv if x["key"].startswith("boundary:")]
     cov15 = api_coverage(r)
+    cov15["boundary_replays"] = rcov["boundary_replays"]
     cov15["apalache_unbounded_integers"] = apalache_bump()
     finish("C15", tier, seed, "model_checking", cov15, v, t0, ["usize::MAX-1 and usize::MAX stand for all values whose addition overflows", "after a caught panic the specification requires the lexer to be unchanged"])
 
